@@ -763,4 +763,492 @@ theorem pk_pack_illegal (fs : FS) (cwd : Str) (o : PackOpts) (src : Str)
       split at h
       · rename_i r hr; rw [hr, h]
       · cases h
+/-! ## the working directory -/
+
+theorem pk_validSymlink_cwd (cwd cwd' : Str) (allow : List Str) (root p t : Str) (h : AbsClean root) :
+    validSymlink cwd allow root p t = validSymlink cwd' allow root p t := by
+  unfold validSymlink
+  rw [pathAbs_absClean cwd root h, pathAbs_absClean cwd' root h]
+
+theorem pk_walk_cwd (fs : FS) (cwd cwd' : Str) (o : PackOpts) (rules : Option (List Rule)) (root : Str)
+    (hroot : AbsClean root) :
+    ∀ fuel : Nat,
+      (∀ src dst path node st, walkNode fs cwd o rules root src dst fuel path node st =
+        walkNode fs cwd' o rules root src dst fuel path node st) ∧
+      (∀ src dst path names st, walkChildren fs cwd o rules root src dst fuel path names st =
+        walkChildren fs cwd' o rules root src dst fuel path names st) ∧
+      (∀ src dst path node st, visit fs cwd o rules root src dst fuel path node st =
+        visit fs cwd' o rules root src dst fuel path node st) := by
+  intro fuel
+  induction fuel with
+  | zero =>
+    refine ⟨?_, ?_, ?_⟩
+    · intros; rw [walkNode, walkNode]
+    · intros; rw [walkChildren, walkChildren]
+    · intros; rw [visit, visit]
+  | succ fuel ih =>
+    obtain ⟨ihN, ihC, ihV⟩ := ih
+    refine ⟨?_, ?_, ?_⟩
+    · intro src dst path node st
+      cases node with
+      | dir perm mt => rw [walkNode, walkNode]; simp only [ihV, ihC]
+      | file perm mt c =>
+        rw [walkNode, walkNode]
+        · exact ihV _ _ _ _ _
+        · intro _ _ h; cases h
+        · intro _ _ h; cases h
+      | link t =>
+        rw [walkNode, walkNode]
+        · exact ihV _ _ _ _ _
+        · intro _ _ h; cases h
+        · intro _ _ h; cases h
+      | special =>
+        rw [walkNode, walkNode]
+        · exact ihV _ _ _ _ _
+        · intro _ _ h; cases h
+        · intro _ _ h; cases h
+    · intro src dst path names st
+      cases names with
+      | nil => rw [walkChildren, walkChildren]
+      | cons name rest => rw [walkChildren, walkChildren]; simp only [ihN, ihC]
+    · intro src dst path node st
+      cases node <;> rw [visit, visit] <;>
+        first | rfl | (intro _ _ h; cases h) | (simp only [ihN, pk_validSymlink_cwd cwd cwd' _ _ _ _ hroot])
+/-- an absolute clean path has no trailing slash (except `/` itself): `Pack` uses `Lstat` on it -/
+theorem pk_rootInfo_absClean (fs : FS) (cwd src : Str) (h : AbsClean src) :
+    pkRootInfo fs cwd src = fs.lstat src := by
+  unfold pkRootInfo
+  rw [pathAbs_absClean cwd src h]
+  have hc : ¬ (hasSuffix src ['/'] = true ∧ src ≠ ['/']) := by
+    intro ⟨h1, h2⟩
+    by_cases hn : pathSegs src = []
+    · apply h2
+      rw [absClean_eq_ofSegs src h, hn]; rfl
+    · rw [absClean_eq_ofSegs src h, ps_hasSuffix_ofSegs _ hn (absClean_segs src h)] at h1
+      cases h1
+  rw [if_neg hc]
+
+theorem pk_loadIgnore_cwd (fs : FS) (cwd cwd' s : Str) (h : isAbs s = true) :
+    loadIgnore fs cwd s = loadIgnore fs cwd' s := by
+  unfold loadIgnore
+  rw [pathAbs_absClean cwd _ (pathJoin_absClean s _ h), pathAbs_absClean cwd' _ (pathJoin_absClean s _ h)]
+
+theorem pk_pathAbs_abs (cwd s : Str) (h : isAbs s = true) : pathAbs cwd s = pathClean s := by
+  unfold pathAbs; rw [if_pos h]
+
+/-- `Pack` on an absolute clean source path whose root symlink (if any) has an absolute target does
+not look at the working directory -/
+theorem pk_pack_cwd (fs : FS) (cwd cwd' : Str) (o : PackOpts) (src : Str) (hs : AbsClean src)
+    (hl : ∀ t, fs.lstat src = .ok (.link t) → isAbs t = true) :
+    pack fs cwd o src = pack fs cwd' o src := by
+  have hi : pkRootInfo fs cwd src = pkRootInfo fs cwd' src := by
+    rw [pk_rootInfo_absClean fs cwd src hs, pk_rootInfo_absClean fs cwd' src hs]
+  have hs1 : pkSrc1 fs cwd src = pkSrc1 fs cwd' src := by
+    unfold pkSrc1; rw [hi]
+  have habs : isAbs (pkSrc1 fs cwd src) = true := by
+    unfold pkSrc1
+    rw [pk_rootInfo_absClean fs cwd src hs]
+    split
+    · rename_i t ht; exact hl t ht
+    · exact hs.1
+  have hroot : pkRoot fs cwd src = pkRoot fs cwd' src := by
+    unfold pkRoot
+    rw [← hs1, pk_pathAbs_abs cwd _ habs, pk_pathAbs_abs cwd' _ habs]
+  have hrc : AbsClean (pkRoot fs cwd src) := by
+    unfold pkRoot
+    rw [pk_pathAbs_abs cwd _ habs]
+    exact pathClean_absClean _ habs
+  have hrules : pkRules fs cwd o src = pkRules fs cwd' o src := by
+    unfold pkRules
+    rw [← hs1, pk_loadIgnore_cwd fs cwd cwd' _ habs]
+  rw [pk_pack_eq, pk_pack_eq, ← hi, ← hroot, ← hrules]
+  simp only [(pk_walk_cwd fs cwd cwd' o _ _ hrc packFuel).1]
+/-! ## spellings of the source path -/
+
+theorem pk_resolve_follow_eq (fs : FS) : ∀ (fuel : Nat) (cur : PPath) (segs : List Seg),
+    (∀ p t, resolve fs fuel cur segs false = .ok p → fs.lookup p ≠ some (.link t)) →
+    resolve fs fuel cur segs true = resolve fs fuel cur segs false := by
+  intro fuel
+  induction fuel with
+  | zero => intro cur segs _; simp [resolve]
+  | succ fuel ih =>
+    intro cur segs hl
+    cases segs with
+    | nil => simp [resolve]
+    | cons s rest =>
+      rw [resolve, resolve] at *
+      split
+      · rename_i hs
+        rw [if_pos hs] at hl
+        exact ih _ _ hl
+      · rename_i hs
+        rw [if_neg hs] at hl
+        simp only at hl ⊢
+        split
+        · rfl
+        · rename_i pm mt hlk
+          rw [hlk] at hl
+          exact ih _ _ hl
+        · rename_i t hlk
+          rw [hlk] at hl
+          simp only at hl
+          by_cases hr : rest = []
+          · subst hr
+            simp only [Bool.not_false, and_self, if_true] at hl
+            exact absurd hlk (hl _ t rfl)
+          · simp only [hr, false_and, if_false] at hl ⊢
+            split
+            · rfl
+            · rename_i ht
+              rw [if_neg ht] at hl
+              exact ih _ _ hl
+        · rfl
+
+/-- when `Lstat` does not report a symlink, `Stat` reports the same thing -/
+theorem pk_stat_eq_lstat (fs : FS) (path : Str) (h : ∀ t, fs.lstat path ≠ .ok (.link t)) :
+    (fs.stat path).map (·.2) = fs.lstat path := by
+  have hr : fs.resolvePath path true = fs.resolvePath path false := by
+    unfold FS.resolvePath
+    apply pk_resolve_follow_eq
+    intro p t hp hlk
+    apply h t
+    unfold FS.lstat FS.resolvePath
+    rw [hp]
+    simp only [hlk]
+  unfold FS.stat FS.lstat
+  rw [hr]
+  cases fs.resolvePath path false with
+  | error e => rfl
+  | ok p => simp only; cases fs.lookup p <;> rfl
+theorem pk_rootInfo_nolink (fs : FS) (cwd s : Str) (h : ∀ t, fs.lstat (pathAbs cwd s) ≠ .ok (.link t)) :
+    pkRootInfo fs cwd s = fs.lstat (pathAbs cwd s) := by
+  unfold pkRootInfo
+  split
+  · exact pk_stat_eq_lstat fs _ h
+  · rfl
+
+theorem pk_pathJoin_clean_left (a b : Str) (ha : isAbs a = true) : pathJoin (pathClean a) b = pathJoin a b := by
+  rw [pathJoin_abs _ _ (pathClean_absClean a ha).1, pathJoin_abs a b ha, pathSegs_pathClean a ha, clean_join]
+
+theorem pk_loadIgnore_spelling (fs : FS) (cwd s s' : Str) (hs : isAbs s = true) (hs' : isAbs s' = true)
+    (hc : pathClean s = pathClean s') : loadIgnore fs cwd s = loadIgnore fs cwd s' := by
+  unfold loadIgnore
+  rw [← pk_pathJoin_clean_left s _ hs, ← pk_pathJoin_clean_left s' _ hs', hc]
+
+/-- two absolute spellings of the same clean path for which the root `Lstat` step gives the same
+answer are packed alike -/
+theorem pk_pack_spelling_core (fs : FS) (cwd : Str) (o : PackOpts) (s s' : Str)
+    (hs : isAbs s = true) (hs' : isAbs s' = true) (hc : pathClean s = pathClean s')
+    (hi : pkRootInfo fs cwd s = pkRootInfo fs cwd s') :
+    pack fs cwd o s = pack fs cwd o s' := by
+  have key : pkRoot fs cwd s = pkRoot fs cwd s' ∧ pkRules fs cwd o s = pkRules fs cwd o s' := by
+    unfold pkRoot pkRules pkSrc1
+    rw [hi]
+    split
+    · exact ⟨rfl, rfl⟩
+    · rw [pk_pathAbs_abs cwd s hs, pk_pathAbs_abs cwd s' hs', hc, pk_loadIgnore_spelling fs cwd s s' hs hs' hc]
+      exact ⟨rfl, rfl⟩
+  rw [pk_pack_eq, pk_pack_eq, hi, key.1, key.2]
+/-! ## a relative spelling: `Abs` distributes over `Join` -/
+
+/-- a cleaned relative segment: no separator, not empty, not `.` (it may be `..`) -/
+def PkSeg (x : Seg) : Prop := '/' ∉ x ∧ x ≠ [] ∧ x ≠ dot
+
+theorem pk_step_false_mem (st : List Seg) (s : Seg) : ∀ x ∈ step false st s, x ∈ st ∨ x = s := by
+  intro x hx
+  unfold step at hx
+  split at hx
+  · exact Or.inl hx
+  · split at hx
+    · rename_i hs
+      split at hx
+      · simp at hx; exact Or.inr (by rw [hx, hs])
+      · split at hx
+        · simp only [List.mem_cons] at hx
+          rcases hx with h | h | h
+          · exact Or.inr (by rw [h, hs])
+          · exact Or.inl (by simp [h])
+          · exact Or.inl (by simp [h])
+        · exact Or.inl (List.mem_cons_of_mem _ hx)
+    · simp only [List.mem_cons] at hx
+      rcases hx with h | h
+      · exact Or.inr h
+      · exact Or.inl h
+
+theorem pk_run_false_mem (xs : List Seg) : ∀ st : List Seg, ∀ x ∈ run false st xs, x ∈ st ∨ x ∈ xs := by
+  induction xs with
+  | nil => intro st x hx; exact Or.inl hx
+  | cons y ys ih =>
+    intro st x hx
+    rw [ps_run_cons] at hx
+    rcases ih _ x hx with h | h
+    · rcases pk_step_false_mem st y x h with h' | h'
+      · exact Or.inl h'
+      · exact Or.inr (by simp [h'])
+    · exact Or.inr (List.mem_cons_of_mem _ h)
+
+theorem pk_normal_mem (r : Bool) (st : List Seg) (h : Normal r st) : ∀ s ∈ st, Plain s ∨ s = dotdot := by
+  induction h with
+  | nil => intro s hs; cases hs
+  | dots st _ hall => intro s hs; exact Or.inr (hall s hs)
+  | name t st hp _ ih =>
+    intro s hs
+    simp only [List.mem_cons] at hs
+    rcases hs with e | e
+    · rw [e]; exact Or.inl hp
+    · exact ih s e
+
+/-- the segments of a cleaned path -/
+theorem pk_cleanSegs_pkSeg (r : Bool) (s : Str) : ∀ x ∈ cleanSegs r (splitOn '/' s), PkSeg x := by
+  intro x hx
+  unfold cleanSegs at hx
+  have hx' := List.mem_reverse.mp hx
+  have hp := pk_normal_mem r _ (run_normal r [] (splitOn '/' s) Normal.nil) x hx'
+  have hns : '/' ∉ x := by
+    rcases hp with hp | hp
+    · cases r with
+      | false =>
+        rcases pk_run_false_mem _ [] x hx' with h | h
+        · cases h
+        · exact splitOn_noSep '/' s x h
+      | true =>
+        rcases ps_run_true_mem _ [] x hx' with h | h
+        · cases h
+        · exact splitOn_noSep '/' s x h
+    · rw [hp]; decide
+  rcases hp with hp | hp
+  · exact ⟨hns, hp.1, hp.2.1⟩
+  · exact ⟨hns, by rw [hp]; decide, by rw [hp]; decide⟩
+
+theorem pk_pathSegs_joinWith (N : List Seg) (h : ∀ x ∈ N, PkSeg x) : pathSegs (joinWith '/' N) = N := by
+  by_cases hne : N = []
+  · subst hne; decide
+  · unfold pathSegs
+    rw [splitOn_joinWith '/' N hne (fun x hx => (h x hx).1), List.filter_eq_self]
+    intro x hx
+    simp [(h x hx).2.1, (h x hx).2.2]
+
+/-- cleaning a relative path string, segment-wise -/
+theorem pk_pathSegs_pathClean_rel (s : Str) (h : isAbs s = false) :
+    pathSegs (pathClean s) = cleanSegs false (pathSegs s) := by
+  unfold pathClean
+  simp only [h, Bool.false_eq_true, if_false]
+  rw [cleanSegs_splitOn]
+  split
+  · rename_i he; rw [he]; decide
+  · rw [← cleanSegs_splitOn]
+    exact pk_pathSegs_joinWith _ (pk_cleanSegs_pkSeg false s)
+
+theorem pk_isAbs_joinWith (Q : List Seg) (h : ∀ x ∈ Q, PkSeg x) : isAbs (joinWith '/' Q) = false := by
+  cases Q with
+  | nil => rfl
+  | cons q Q' =>
+    have hq := h q (by simp)
+    cases q with
+    | nil => exact absurd rfl hq.2.1
+    | cons c q' =>
+      have hc : c ≠ '/' := by intro e; apply hq.1; simp [e]
+      cases Q' with
+      | nil => simp [joinWith, isAbs, hc]
+      | cons t r => simp [joinWith, isAbs, hc]
+
+/-- `Clean` keeps a relative path relative -/
+theorem pk_isAbs_pathClean_rel (s : Str) (h : isAbs s = false) : isAbs (pathClean s) = false := by
+  unfold pathClean
+  simp only [h, Bool.false_eq_true, if_false]
+  split
+  · decide
+  · exact pk_isAbs_joinWith _ (pk_cleanSegs_pkSeg false s)
+/-- one step of the two machines side by side: the relative machine on `N ++ ..^k`, the rooted
+machine on `N ++ st0.drop k` (`N` names on top; `k` pending `..`) -/
+theorem pk_sim_step (st0 N : List Seg) (k : Nat) (x : Seg) (hst0 : ∀ s ∈ st0, Plain s)
+    (hN : ∀ s ∈ N, Plain s) :
+    ∃ N' k', step false (N ++ List.replicate k dotdot) x = N' ++ List.replicate k' dotdot ∧
+      (∀ s ∈ N', Plain s) ∧ step true (N ++ st0.drop k) x = N' ++ st0.drop k' := by
+  by_cases hskip : x = [] ∨ x = dot
+  · exact ⟨N, k, ps_step_skip _ _ x hskip, hN, ps_step_skip _ _ x hskip⟩
+  · by_cases hdd : x = dotdot
+    · subst hdd
+      cases N with
+      | cons t N' =>
+        have ht : Plain t := hN t (by simp)
+        refine ⟨N', k, ?_, fun s hs => hN s (by simp [hs]), ?_⟩
+        · simp [step, ht.2.2]
+        · simp [step, ht.2.2]
+      | nil =>
+        refine ⟨[], k + 1, ?_, by simp, ?_⟩
+        · cases k with
+          | zero => simp [step]
+          | succ k => simp [step, List.replicate_succ]
+        · simp only [List.nil_append]
+          cases hd : st0.drop k with
+          | nil =>
+            have : st0.drop (k + 1) = [] := by
+              rw [← List.drop_drop, hd]; rfl
+            simp [step, this]
+          | cons t r =>
+            have ht : Plain t := hst0 t (List.mem_of_mem_drop (by rw [hd]; simp))
+            have : st0.drop (k + 1) = r := by
+              rw [← List.drop_drop, hd]; rfl
+            simp [step, ht.2.2, this]
+    · have hp : Plain x := ⟨fun h => hskip (Or.inl h), fun h => hskip (Or.inr h), hdd⟩
+      refine ⟨x :: N, k, ?_, ?_, ?_⟩
+      · rw [ps_step_plain _ _ x hp]; rfl
+      · intro s hs
+        simp only [List.mem_cons] at hs
+        rcases hs with e | e
+        · rw [e]; exact hp
+        · exact hN s e
+      · rw [ps_step_plain _ _ x hp]; rfl
+
+theorem pk_sim_run (st0 : List Seg) (hst0 : ∀ s ∈ st0, Plain s) (B : List Seg) :
+    ∀ (N : List Seg) (k : Nat), (∀ s ∈ N, Plain s) →
+    ∃ N' k', run false (N ++ List.replicate k dotdot) B = N' ++ List.replicate k' dotdot ∧
+      (∀ s ∈ N', Plain s) ∧ run true (N ++ st0.drop k) B = N' ++ st0.drop k' := by
+  induction B with
+  | nil => intro N k hN; exact ⟨N, k, rfl, hN, rfl⟩
+  | cons x B ih =>
+    intro N k hN
+    obtain ⟨N1, k1, e1, hN1, e2⟩ := pk_sim_step st0 N k x hst0 hN
+    obtain ⟨N2, k2, f1, hN2, f2⟩ := ih N1 k1 hN1
+    refine ⟨N2, k2, ?_, hN2, ?_⟩
+    · rw [ps_run_cons, e1, f1]
+    · rw [ps_run_cons, e2, f2]
+
+theorem pk_run_dotdots (st0 : List Seg) (hst0 : ∀ s ∈ st0, Plain s) :
+    ∀ k, run true st0 (List.replicate k dotdot) = st0.drop k := by
+  intro k
+  induction k generalizing st0 with
+  | zero => rfl
+  | succ k ih =>
+    rw [List.replicate_succ, ps_run_cons]
+    cases st0 with
+    | nil => simp only [step]; simp [ih [] (by simp)]
+    | cons t r =>
+      have ht : Plain t := hst0 t (by simp)
+      have : step true (t :: r) dotdot = r := by simp [step, ht.2.2]
+      rw [this, ih r (fun s hs => hst0 s (by simp [hs]))]
+      rfl
+
+/-- feeding the rooted machine the cleaned form of a relative path instead of the path itself
+makes no difference -/
+theorem pk_run_cleanRel (st0 : List Seg) (hst0 : ∀ s ∈ st0, Plain s) (B : List Seg) :
+    run true st0 (cleanSegs false B) = run true st0 B := by
+  obtain ⟨N, k, e1, hN, e2⟩ := pk_sim_run st0 hst0 B [] 0 (by simp)
+  simp only [List.replicate_zero, List.append_nil, List.nil_append, List.drop_zero] at e1 e2
+  unfold cleanSegs
+  rw [e1, e2, List.reverse_append, List.reverse_replicate, run_append, pk_run_dotdots st0 hst0,
+    ps_run_plain true N.reverse _ (fun s hs => hN s (List.mem_reverse.mp hs)), List.reverse_reverse]
+
+theorem pk_cleanSegs_append_cleanRel (A B : List Seg) :
+    cleanSegs true (A ++ cleanSegs false B) = cleanSegs true (A ++ B) := by
+  unfold cleanSegs
+  rw [run_append, run_append]
+  have hp := ps_normal_true_plain _ (run_normal true [] A Normal.nil)
+  have := pk_run_cleanRel (run true [] A) hp B
+  unfold cleanSegs at this
+  rw [this]
+/-- `filepath.Abs(filepath.Join(rel, x)) = filepath.Join(filepath.Abs(rel), x)` for relative
+`rel`, `x` and an absolute working directory -/
+theorem pk_pathAbs_pathJoin_rel (cwd rel x : Str) (hcwd : isAbs cwd = true) (hrel : isAbs rel = false)
+    (hx : isAbs x = false) (hxne : x ≠ []) :
+    pathAbs cwd (pathJoin rel x) = pathJoin (pathAbs cwd rel) x := by
+  have hy : ∃ y, pathJoin rel x = pathClean y ∧ isAbs y = false ∧ pathSegs y = pathSegs rel ++ pathSegs x := by
+    unfold pathJoin
+    by_cases hr : rel = []
+    · subst hr
+      simp only [if_true, hxne, if_false]
+      exact ⟨x, rfl, hx, by rw [ps_pathSegs_nil]; rfl⟩
+    · simp only [hr, hxne, if_false]
+      refine ⟨rel ++ '/' :: x, rfl, ?_, pathSegs_append_sep rel x⟩
+      cases rel with
+      | nil => exact absurd rfl hr
+      | cons c r => simpa [isAbs] using hrel
+  obtain ⟨y, ey, hyabs, hysegs⟩ := hy
+  have hcy : isAbs (pathClean y) = false := pk_isAbs_pathClean_rel y hyabs
+  have hL : pathAbs cwd (pathJoin rel x) = pathJoin cwd (pathClean y) := by
+    rw [ey]; unfold pathAbs; simp [hcy]
+  have hR : pathAbs cwd rel = pathJoin cwd rel := by
+    unfold pathAbs; simp [hrel]
+  rw [hL, hR, pathJoin_abs cwd _ hcwd, pathJoin_abs _ x (pathJoin_absClean cwd rel hcwd).1,
+    pathSegs_pathJoin cwd rel hcwd, clean_join, pk_pathSegs_pathClean_rel y hyabs,
+    pk_cleanSegs_append_cleanRel, hysegs, List.append_assoc]
+/-- a relative spelling of a source that is not a symlink is packed like its absolute form -/
+theorem pk_pack_spelling_rel (fs : FS) (cwd : Str) (o : PackOpts) (rel : Str)
+    (hcwd : isAbs cwd = true) (hrel : isAbs rel = false)
+    (hnl : ∀ t, fs.lstat (pathAbs cwd rel) ≠ .ok (.link t)) :
+    pack fs cwd o rel = pack fs cwd o (pathAbs cwd rel) := by
+  have habs : pathAbs cwd rel = pathJoin cwd rel := by unfold pathAbs; simp [hrel]
+  have hac : AbsClean (pathAbs cwd rel) := by rw [habs]; exact pathJoin_absClean cwd rel hcwd
+  have hfix : pathAbs cwd (pathAbs cwd rel) = pathAbs cwd rel := pathAbs_absClean cwd _ hac
+  have hi1 : pkRootInfo fs cwd rel = fs.lstat (pathAbs cwd rel) := pk_rootInfo_nolink fs cwd rel hnl
+  have hi2 : pkRootInfo fs cwd (pathAbs cwd rel) = fs.lstat (pathAbs cwd rel) :=
+    pk_rootInfo_absClean fs cwd _ hac
+  have hs1 : pkSrc1 fs cwd rel = rel := by
+    unfold pkSrc1; rw [hi1]
+    split
+    · rename_i t ht; exact absurd ht (hnl t)
+    · rfl
+  have hs2 : pkSrc1 fs cwd (pathAbs cwd rel) = pathAbs cwd rel := by
+    unfold pkSrc1; rw [hi2]
+    split
+    · rename_i t ht; exact absurd ht (hnl t)
+    · rfl
+  have hr : pkRoot fs cwd rel = pkRoot fs cwd (pathAbs cwd rel) := by
+    unfold pkRoot; rw [hs1, hs2, hfix]
+  have hrules : pkRules fs cwd o rel = pkRules fs cwd o (pathAbs cwd rel) := by
+    unfold pkRules loadIgnore
+    rw [hs1, hs2, pk_pathAbs_pathJoin_rel cwd rel _ hcwd hrel (by decide) (by decide),
+      pathAbs_absClean cwd (pathJoin (pathAbs cwd rel) _) (pathJoin_absClean _ _ hac.1)]
+  rw [pk_pack_eq, pk_pack_eq, hi1, hi2, hr, hrules]
+/-! ## fuel of `resolveExternalLink` -/
+
+/-- the chain of symlinks starting at `path` ends within `n` `Readlink` steps: at something that
+is not a link, at a dangling target, or because `path` is not a link in the first place -/
+def pkChainEnds (fs : FS) : Nat → Str → Bool
+  | 0, _ => false
+  | n + 1, path =>
+    match fs.readlink path with
+    | .error _ => true
+    | .ok target =>
+      match fs.lstat (if isAbs target then target else pathJoin (pathDir path) target) with
+      | .ok (.link _) => pkChainEnds fs n (if isAbs target then target else pathJoin (pathDir path) target)
+      | _ => true
+
+theorem pk_resolveExternalLink_ends (fs : FS) : ∀ (n : Nat) (path : Str), pkChainEnds fs n path = true →
+    resolveExternalLink fs n path ≠ .error .diverged ∧
+    ∀ m, n ≤ m → resolveExternalLink fs m path = resolveExternalLink fs n path := by
+  intro n
+  induction n with
+  | zero => intro path h; simp [pkChainEnds] at h
+  | succ n ih =>
+    intro path h
+    rw [pkChainEnds] at h
+    constructor
+    · rw [resolveExternalLink]
+      split
+      · intro h'; cases h'
+      · rename_i target ht
+        rw [ht] at h
+        simp only at h ⊢
+        split
+        · intro h'; cases h'
+        · rename_i t hl
+          rw [hl] at h
+          exact (ih _ h).1
+        · intro h'; cases h'
+    · intro m hm
+      obtain ⟨m', rfl⟩ : ∃ m', m = m' + 1 := ⟨m - 1, by omega⟩
+      rw [resolveExternalLink, resolveExternalLink]
+      split
+      · rfl
+      · rename_i target ht
+        rw [ht] at h
+        simp only at h ⊢
+        split
+        · rfl
+        · rename_i t hl
+          rw [hl] at h
+          exact (ih _ h).2 m' (by omega)
+        · rfl
 end Slug
